@@ -53,3 +53,60 @@ UNITS = [
     macro_unit('BACKTRACE_LOGGER_CALL', 'QUILL_BACKTRACE_LOGGER_CALL(LOGGER, TAGS, FMT, ARG1(), ARG2())', False, 'LL_Backtrace', 'EV_Log', 'QUILL_BACKTRACE_LOGGER_CALL (LOG_BACKTRACE)'),
     macro_unit('LOG_RUNTIME_METADATA', 'QUILL_LOG_RUNTIME_METADATA(LOGGER, LEVEL, FILE_, LINE_, FUNCTION_, FMT, ARG1(), ARG2())', True, 'LL_Dynamic', 'EV_LogWithRuntimeMetadata', 'QUILL_LOG_RUNTIME_METADATA'),
 ]
+
+# ------------------------------------------------------------------------------------------ the rate-limited call macros
+LIM_PRELUDE = PRELUDE + r'''
+/* thread_local state of the macro use as globals with symbolic pre-state */
+uint64_t g_call_count, g_next_log_at, g_suppressed; int64_t g_next_log_time, g_now, g_min_interval; size_t N_OCC;
+int64_t STEADY_NOW(void) __CPROVER_assigns() __CPROVER_ensures(RET == g_now);
+int ARG_COUNT(uint64_t v) __CPROVER_assigns(g_arg_evals) __CPROVER_ensures(g_arg_evals == OLD(g_arg_evals) + 1);
+#define SHOULD (LEVEL >= LOGGER->log_level)
+'''
+LIM_RULES = RULES + [(r'thread_local\s+uint64_t\s+call_count\s*=\s*0\s*;', ''), (r'thread_local\s+uint64_t\s+next_log_at\s*=\s*0\s*;', ''), (r'\bcall_count\b', 'g_call_count'), (r'\bnext_log_at\b', 'g_next_log_at'),
+                     (r'thread_local\s+std::chrono::time_point<std::chrono::steady_clock>\s+next_log_time\s*;', ''), (r'thread_local\s+uint64_t\s+suppressed_log_count\s*\{0\}\s*;', ''),
+                     (r'auto\s+const\s+now\s*=\s*std::chrono::steady_clock::now\(\)\s*;', 'int64_t const now = STEADY_NOW();'), (r'\bnext_log_time\b', 'g_next_log_time'), (r'\bsuppressed_log_count\b', 'g_suppressed'),
+                     (r'\bMIN_INTERVAL\b', 'g_min_interval'), (r',\s*g_suppressed \+ 1\)', ', ARG_COUNT(g_suppressed + 1))')]
+every_n = dict(
+    name='MAC.LOGGER_CALL_LIMIT_EVERY_N', primary='C16', props={'C16'}, kind='S',
+    desc='QUILL_LOGGER_CALL_LIMIT_EVERY_N (LOG_*_LIMIT_EVERY_N): below the level nothing happens; otherwise the statement is enqueued exactly on every N-th passing call (the first included) and its arguments are evaluated only then',
+    structs=[], prelude=LIM_PRELUDE, enforce='VERIF_USE', replace=['ARG1', 'ARG2', 'LOG_STATEMENT'],
+    funcs=[dict(src=dict(header=H, cls=None, name='VERIF_USE', line_re=r'define\s+QUILL_LOGGER_CALL_LIMIT_EVERY_N\b',
+                         pp_text='#include "quill/LogMacros.h"\nvoid VERIF_USE(void) { QUILL_LOGGER_CALL_LIMIT_EVERY_N(N_OCC, LIKELY_, LOGGER, TAGS, LEVEL, FMT, ARG1(), ARG2()); }\n'),
+                src_params=None, cfun='VERIF_USE', sig='void VERIF_USE(void)', member_fields=[], pre_rules=LIM_RULES,
+                contract=r'''
+__CPROVER_requires(__CPROVER_is_fresh(LOGGER, sizeof(LGx)) && LEVEL <= LL_Critical && LOGGER->log_level <= LL_None && g_arg_evals == 0 && g_log_calls == 0 && g_checks == 0 && g_call_count < (1ULL << 62) && g_next_log_at < (1ULL << 62) && N_OCC < (1ULL << 32))
+__CPROVER_assigns(g_arg_evals, g_log_calls, g_checks, g_passed_dynamic_level, g_passed_md_level, g_passed_event, g_passed_dyn_flag, g_passed_logger, g_evals_at_call, g_call_count, g_next_log_at)
+__CPROVER_ensures(!SHOULD ==> (g_arg_evals == 0 && g_log_calls == 0 && g_call_count == OLD(g_call_count) && g_next_log_at == OLD(g_next_log_at))) /*@ C16 "below the logger's level a rate-limited statement is not enqueued, not counted, and its arguments are not evaluated" */
+__CPROVER_ensures((SHOULD && OLD(g_call_count) == OLD(g_next_log_at)) ==> (g_log_calls == 1 && g_arg_evals == 2 && g_evals_at_call == 2 && g_next_log_at == OLD(g_next_log_at) + N_OCC && g_passed_md_level == LEVEL)) /*@ C16 "on the calls it is due (the first, then every N-th) the statement is enqueued once with every argument evaluated once" */
+__CPROVER_ensures((SHOULD && OLD(g_call_count) != OLD(g_next_log_at)) ==> (g_log_calls == 0 && g_arg_evals == 0 && g_next_log_at == OLD(g_next_log_at))) /*@ C16 "a suppressed call enqueues nothing and evaluates no argument" */
+__CPROVER_ensures(SHOULD ==> g_call_count == OLD(g_call_count) + 1)
+''')],
+    harness='  VERIF_USE();',
+    dropped=['thread_local counters as globals with symbolic pre-state', 'the constexpr MacroMetadata initialiser except level and event'], trusted=['should_log_statement / log_statement as in MAC.LOGGER_CALL'], min_obligations=10)
+limit = dict(
+    name='MAC.LOGGER_CALL_LIMIT', primary='C16', props={'C16'}, kind='S',
+    desc='QUILL_LOGGER_CALL_LIMIT (LOG_*_LIMIT): below the level nothing happens; a passing call inside the minimum interval is only counted; outside it the statement is enqueued once with its arguments and the number of occurrences since the last one, and the interval restarts',
+    structs=[], prelude=LIM_PRELUDE, enforce='VERIF_USE', replace=['ARG1', 'ARG2', 'ARG_COUNT', 'LOG_STATEMENT', 'STEADY_NOW'],
+    funcs=[dict(src=dict(header=H, cls=None, name='VERIF_USE', line_re=r'define\s+QUILL_LOGGER_CALL_LIMIT\b',
+                         pp_text='#include "quill/LogMacros.h"\nvoid VERIF_USE(void) { QUILL_LOGGER_CALL_LIMIT(MIN_INTERVAL, LIKELY_, LOGGER, TAGS, LEVEL, "plain", ARG1(), ARG2()); }\n'),
+                src_params=None, cfun='VERIF_USE', sig='void VERIF_USE(void)', member_fields=[],
+                constexpr=lambda cond: (False if '_contains_named_args' in cond else None),
+                pre_rules=[(r'LOG_STATEMENT\(LOGGER, (\w+), (true|false), ', r'LOG_STATEMENT3(LOGGER, \1, \2, ', '?')] + LIM_RULES + [(r'LOG_STATEMENT\(LOGGER,', 'LOG_STATEMENT3(LOGGER,')],
+                contract=r'''
+__CPROVER_requires(__CPROVER_is_fresh(LOGGER, sizeof(LGx)) && LEVEL <= LL_Critical && LOGGER->log_level <= LL_None && g_arg_evals == 0 && g_log_calls == 0 && g_checks == 0 && g_suppressed < (1ULL << 62) && g_now >= 0 && g_now < (1LL << 61) && g_min_interval >= 0 && g_min_interval < (1LL << 61) && g_next_log_time >= 0 && g_next_log_time < (1LL << 62))
+__CPROVER_assigns(g_arg_evals, g_log_calls, g_checks, g_passed_dynamic_level, g_passed_md_level, g_passed_event, g_passed_dyn_flag, g_passed_logger, g_evals_at_call, g_suppressed, g_next_log_time)
+__CPROVER_ensures(!SHOULD ==> (g_arg_evals == 0 && g_log_calls == 0 && g_suppressed == OLD(g_suppressed) && g_next_log_time == OLD(g_next_log_time))) /*@ C16 "below the logger's level a rate-limited statement is not enqueued, not counted, and its arguments are not evaluated" */
+__CPROVER_ensures((SHOULD && g_now < OLD(g_next_log_time)) ==> (g_log_calls == 0 && g_arg_evals == 0 && g_suppressed == OLD(g_suppressed) + 1 && g_next_log_time == OLD(g_next_log_time))) /*@ C16 "inside the minimum interval the call is only counted: nothing is enqueued, no argument is evaluated" */
+__CPROVER_ensures((SHOULD && g_now >= OLD(g_next_log_time)) ==> (g_log_calls == 1 && g_arg_evals == 3 && g_evals_at_call == 3 && g_suppressed == 0 && g_next_log_time == g_now + g_min_interval && g_passed_md_level == LEVEL)) /*@ C16 "outside the interval the statement is enqueued once with its arguments and the occurrence count, and the interval restarts" */
+''')],
+    harness='  VERIF_USE();',
+    dropped=['thread_local state as globals with symbolic pre-state', 'std::chrono::steady_clock time points as int64', 'the named-args arm of the macro (chosen at compile time from the format string: this use has a plain format)', 'the text appended to the format'],
+    trusted=['should_log_statement / log_statement as in MAC.LOGGER_CALL'], min_obligations=10)
+for u_ in (limit,):
+    u_['prelude'] = u_['prelude'] + r'''
+bool LOG_STATEMENT3(LGx* l, int flush, bool dyn, LogLevel dynamic_level, MM const* md, int a1, int a2, int a3)
+__CPROVER_assigns(g_log_calls, g_passed_dynamic_level, g_passed_md_level, g_passed_event, g_passed_dyn_flag, g_passed_logger, g_evals_at_call)
+__CPROVER_ensures(g_log_calls == OLD(g_log_calls) + 1 && g_passed_dynamic_level == dynamic_level && g_passed_md_level == md->level && g_passed_event == md->event && g_passed_dyn_flag == dyn && g_passed_logger == l && g_evals_at_call == g_arg_evals);
+'''
+    u_['replace'] = u_['replace'] + ['LOG_STATEMENT3']
+UNITS += [every_n, limit]
